@@ -94,6 +94,8 @@ def c03(tier, seed):
         S("Sunflower", seed=seed + 10, soil_spec=L.LAYERED_SOILS["uneven_dz"], events=storms, iwc={"wc_type": "Pct", "value": [100]}),
         S("Potato", seed=seed + 11, soil_spec=L.LAYERED_SOILS["impeding_uneven"], iwc={"value": ["SAT", "SAT"], "depth_layer": [1, 2]}, events=storms),
         S("Wheat", seed=seed + 13, soil_spec=L.LAYERED_SOILS["sand_over_clay"], irr={"method": 4, "kw": {"NetIrrSMT": 100}}, seasons=2, regime="arid", iwc={"value": ["WP", "WP"], "depth_layer": [1, 2]}),
+        S("Wheat", seed=seed + 16, soil_spec=L.LAYERED_SOILS["sand_over_clay"], irr={"method": 4, "kw": {"NetIrrSMT": 80}}, regime="arid", iwc={"value": ["FC", "FC"], "depth_layer": [1, 2]}),
+        S("Cotton", seed=seed + 17, soil_spec=L.LAYERED_SOILS["sand_over_clay"], irr={"method": 4, "kw": {"NetIrrSMT": 60}}, regime="hot", iwc={"wc_type": "Pct", "value": [50, 50], "depth_layer": [1, 2]}),
         S("Maize", seed=seed + 14, soil_spec=L.LAYERED_SOILS["two_layer"], irr={"method": 4, "kw": {"NetIrrSMT": 80}}, iwc={"wc_type": "Pct", "value": [30, 30], "depth_layer": [1, 2]}),
         S("Sorghum", seed=seed + 15, soil_spec=L.LAYERED_SOILS["three_layer"], irr={"method": 4, "kw": {"NetIrrSMT": 35}}, iwc={"value": ["FC", "FC", "FC"], "depth_layer": [1, 2, 3]}, regime="hot"),
         S("Cotton", seed=seed + 12, regime="wet", soil_spec=L.LAYERED_SOILS["low_ksat"], iwc={"value": ["FC", "SAT"], "depth_layer": [1, 2]}, events=storms),
